@@ -227,11 +227,17 @@ class API:
                 return sym.sym_matrix(nm, old.shape)
             elif isinstance(old, SSeq):
                 t = "list[%s]" % (old.elem_kind or "real")
+            elif isinstance(old, list) and old and all(isinstance(e, CArr) and e.shape == (4, 4) for e in old):
+                t = "list[mat4]"
             else:
                 raise OutOfReach("loop-carried variable %s of type %s needs a declared type" %
                                  (nm, type(old).__name__))
         if t in ("real", "int", "bool"):
             return fresh(t, nm)
+        if t == "list[mat4]":
+            m = fresh("int", nm.replace(".", "_") + "_len")
+            cur().assume(m >= 0)
+            return sym.sym_seq(nm.replace(".", "_"), m, (4, 4))
         if t.startswith("list["):
             ek = t[5:-1]
             m = fresh("int", nm + "_len")
@@ -315,7 +321,7 @@ def _b_range(*a):
             start, stop = a
         else:
             raise OutOfReach("symbolic range with step")
-        return SSeq(sym.smax2(0, stop - start), lambda k: k + start, "int")
+        return SSeq(sym.span(start, stop), lambda k: k + start, "int")
     return _bi.range(*a)
 
 
